@@ -92,13 +92,25 @@ class Overwritten(Exception):
     pass
 
 
-def run_regrid(adapter, gs, gt, smask, tmask, fields, dtype=float):
-    """pushes each field (values per source location, data_points order); returns list of (flat values, flat mask) in target data_points order"""
+class SecondTargetDiffers(Exception):
+    pass
+
+
+def run_regrid(adapter, gs, gt, smask, tmask, fields, dtype=float, two_targets=False):
+    """pushes each field (values per source location, data_points order); returns list of (flat values, flat mask) in target data_points order.
+    two_targets: a second input with the same metadata reads the same adapter (fan-out behind the regridding) and must receive the same"""
     out = fm.Output("o", fm.Info(time=T0, grid=gs, units="m", mask=fm.Mask.NONE if smask is None else smask))
     inp = fm.Input("i", fm.Info(time=T0, grid=gt, units="m", mask=fm.Mask.FLEX if tmask is None else tmask))
     out >> adapter >> inp
+    inp2 = None
+    if two_targets:
+        inp2 = fm.Input("i2", fm.Info(time=T0, grid=gt, units="m", mask=fm.Mask.FLEX if tmask is None else tmask))
+        adapter >> inp2
+        inp2.ping()
     inp.ping()
     inp.exchange_info()
+    if inp2 is not None:
+        inp2.exchange_info()
     res = []
     kept = []
     from datetime import timedelta
@@ -110,6 +122,10 @@ def run_regrid(adapter, gs, gt, smask, tmask, fields, dtype=float):
         t = T0 + timedelta(hours=k)
         out.push_data(d, t)
         got = inp.pull_data(t).magnitude[0]
+        if inp2 is not None:
+            got2 = inp2.pull_data(t).magnitude[0]
+            if not (np.array_equal(np.ma.getmaskarray(got), np.ma.getmaskarray(got2)) and np.array_equal(np.ma.getdata(got)[~np.ma.getmaskarray(got)], np.ma.getdata(got2)[~np.ma.getmaskarray(got2)], equal_nan=got.dtype.kind == "f")):
+                raise SecondTargetDiffers(f"data set {k}: the second input behind the adapter received other data than the first")
         kept.append((got, np.ma.getdata(got).copy(), np.ma.getmaskarray(got).copy()))
         res.append((np.ma.getdata(got).ravel(order=gt.order).copy(), np.ma.getmaskarray(got).ravel(order=gt.order).copy()))
     # history: a result handed out earlier must not change when later data is regridded
@@ -134,9 +150,9 @@ def check_nearest(case):
     else:
         ident = 1000.0 + np.arange(len(sp))
     try:
-        (vals, gmask), (vals2, gmask2) = run_regrid(fm.adapters.RegridNearest(), gs, gt, smask, tmask, [ident, ident[::-1] + 7], dtype=np.int64 if case.get("int64") else float)
+        (vals, gmask), (vals2, gmask2) = run_regrid(fm.adapters.RegridNearest(), gs, gt, smask, tmask, [ident, ident[::-1] + 7], dtype=np.int64 if case.get("int64") else float, two_targets=bool(case.get("two_targets")))
     except Exception as e:  # noqa
-        return [("earlier_result_overwritten" if isinstance(e, Overwritten) else "exception", f"{type(e).__name__}: {str(e)[:100]}")]
+        return [("earlier_result_overwritten" if isinstance(e, Overwritten) else "second_target_differs" if isinstance(e, SecondTargetDiffers) else "exception", f"{type(e).__name__}: {str(e)[:100]}")]
     bad = []
     if case.get("int64") and (vals.dtype.kind not in "iu" or vals2.dtype.kind not in "iu"):
         # comparing a float result with the integer identity field would round both sides: the result must still be an integer array
@@ -324,6 +340,11 @@ def items(tier):
         for order in "FC":
             out.append(dict(kind="nearest", src=dict(kind="esri", lay=dict(order=order, rev=True, inc=[True, False])), dst=dict(kind="pts", lay=dict(order="C", rev=False, inc=[True, True])), smask=bits))
             out.append(dict(kind="nearest", src=dict(kind="uni2", lay=L2[bits % 16], loc="CELLS"), dst=dict(kind="pts", lay=dict(order=order, rev=False, inc=[True, True])), smask=bits))
+    # fan-out behind the regridding adapter: two inputs read one adapter (no mask, source masks, target masks, both)
+    for bits in (None, 1, 5, 33, 62):
+        for tb in (None, 9):
+            for l1 in L2[::3]:
+                out.append(dict(kind="nearest", src=dict(kind="uni2", lay=l1, loc="CELLS"), dst=dict(kind="uni2b", lay=L2[7], loc="CELLS"), smask=bits, tmask=tb, two_targets=True))
     # many data locations on one side (index tables wider than one byte), fine -> coarse and coarse -> fine
     for l1 in (L2[0], L2[5], L2[10]):
         for l2 in (L2[0], L2[9]):
